@@ -275,6 +275,17 @@ inline Node::Node(std::initializer_list<Node> il)
 struct RuleF
 {
     int r;
+    // the library keeps its own copy of a rule's functor and calls it through a const reference: this overload can only be
+    // chosen if the library calls the CALLER'S object (or a non-const copy) - observed as a `mutcall` event, and a data
+    // race under ThreadSanitizer when several threads parse
+    long ncalls = 0;
+    template<typename... A>
+    Node operator()(A&&... a)
+    {
+        ++ncalls;
+        { Event e; e.k = "mutcall"; e.a = { r }; tl_log.add(std::move(e)); }
+        return std::as_const(*this)(std::forward<A>(a)...);
+    }
     template<typename... A>
     Node operator()(A&&... a) const
     {
@@ -296,7 +307,7 @@ struct RuleFN
 {
     int r;
     template<typename... A>
-    ctpg::no_type operator()(A&&... a) const { RuleF{r}(std::forward<A>(a)...); return {}; }
+    ctpg::no_type operator()(A&&... a) const { const RuleF f{r}; f(std::forward<A>(a)...); return {}; }
 };
 
 // ---------------------------------------------------------------- a user buffer whose iterators observe every access
@@ -427,7 +438,7 @@ struct RuleFCN
 {
     int r;
     template<typename... A>
-    ctpg::no_type operator()(A&&... a) const { RuleFC{r}(std::forward<A>(a)...); return {}; }
+    ctpg::no_type operator()(A&&... a) const { const RuleFC f{r}; f(std::forward<A>(a)...); return {}; }
 };
 
 // ---------------------------------------------------------------- job / trace plumbing
